@@ -134,10 +134,13 @@ package shard
 //@   ensures ite(callres(Get, 1, 0) == nil, 0, int(le64at(callres(Get, 1, 0), 0))) + change < 0 ==> result != nil && ncalls(Put) == 0
 
 // insert step: an id that is already stored is an error and nothing is written; otherwise the
-// point is written under a node id taken from the counter and handed to the indexes with it
+// point is written under a node id taken from the counter and handed to the indexes with it; the
+// step never asks the pipeline to skip the element (the pipeline looks at skip before it looks at
+// the error, so an error combined with skip would be swallowed)
 //@ func (*Shard).InsertPoints$1$1
 //@   property C01 C15
 //@   ensures callres(CheckPointExists, 1, 0) ==> err != nil && ncalls(SetPoint) == 0 && ncalls(NextId) == 0
+//@   ensures !skip
 //@   ensures err == nil ==> !skip && ncalls(SetPoint) == 1 && ncalls(NextId) == 1
 //@   ensures err == nil ==> callarg(SetPoint, 1, 1).NodeId == callres(NextId, 1, 0) && callarg(SetPoint, 1, 1).Point.Id == point.Id && callarg(SetPoint, 1, 1).Point.Data == point.Data
 //@   ensures err == nil ==> ipc.NodeId == callres(NextId, 1, 0) && ipc.NewData == point.Data
